@@ -19,7 +19,8 @@ ASSUMPTIONS = ['simulated device implements the firmware TOC protocol (V1 and V2
                'platform / link-control requests are never lost (the library sends them without retry)']
 REQUIRED = ['mon.tables_at_connected', 'mon.lookup_entries', 'mon.stale_sessions', 'mon.lossy_retransmissions',
             'mon.v1_cases', 'mon.over_255', 'mon.cache_reconnects', 'mon.early_param_packets',
-            'mon.stale_item_replies_mid_download', 'mon.cache_shared_with_another_firmware']
+            'mon.stale_item_replies_mid_download', 'mon.cache_shared_with_another_firmware',
+            'mon.cache_files_in_an_older_format']
 DESC_TIMEOUT = 900
 
 SIZES = [0, 1, 2, 3, 254, 255, 256, 257, 300]
@@ -182,6 +183,25 @@ def run(desc, ctx):
             s.sleep(0.3)
             cf.close_link()
             s.sleep(0.2)
+            if other_fw is None and desc['seed'] % 3 == 1:
+                # the cache files were written by an older release: same format, but without the `extended` field
+                import json as _json
+                import os as _os
+                for fnm in _os.listdir(cache_dir):
+                    pth = _os.path.join(cache_dir, fnm)
+                    try:
+                        doc = _json.load(open(pth))
+                    except Exception:
+                        continue
+                    hit = False
+                    for g in doc.values():
+                        for e in (g.values() if isinstance(g, dict) else ()):
+                            if isinstance(e, dict) and 'extended' in e:
+                                del e['extended']
+                                hit = True
+                    if hit:
+                        _json.dump(doc, open(pth, 'w'))
+                        obs['old_format_cache'] = True
             done.clear()
             obs['connected'].clear()
             session['n'] = 2
@@ -250,6 +270,8 @@ def run(desc, ctx):
         if obs.get('stale_mid_download'):
             ctx.count('mon.stale_packets_delivered_mid_download')
         ctx.count('mon.stale_item_replies_mid_download', obs.get('stale_items', 0))
+    if obs.get('old_format_cache'):
+        ctx.count('mon.cache_files_in_an_older_format')
     if obs.get('other_firmware_cached'):
         ctx.count('mon.cache_shared_with_another_firmware')
     if pol == 'cachenotify':
